@@ -1,0 +1,24 @@
+//go:build verif
+
+package impl
+
+// Contracts for the deductive checker in /verif (comment-only; compiled only under the verif tag).
+// Base-field elements are modelled as integers (ring operations are exact; reduction modulo p = 2^255 - 19 is the
+// field's own business): an identity proved over the integers holds in the field.
+
+// Wide (64-byte) decoding reads the bytes modulo the field order: with l0 / h0 the elements denoted by the two
+// 32-byte halves with their top bits (bits 255 and 511 of the input) cleared, the decoded element is
+//     l0 + 19*bit255 + 38*h0 + 722*bit511
+// because 2^255 = 19, 2^256 = 38 and 2^511 = 2^256 * 2^255 = 38*19 = 722 modulo p. The receiver is unchanged unless
+// both halves decode; inputs longer than 64 bytes are rejected.
+//@ func (*Fp).SetBytesWide
+//@   property C13
+//@   bind Fp ringint, *Fp ringptr
+//@   ghostvar l0 Int
+//@   ghostvar h0 Int
+//@   ensures ok == 1 ==> *f == l0 + 19 * p255 + 38 * h0 + 722 * p511
+//@   ensures ok != 1 ==> *f == old(*f)
+//@   ensures len(data) > FpWideBytes ==> ok == 0
+//@   ghostset after "okLo := lo.SetBytes(wideData[:FpBytes])": l0 = lo
+//@   ghostset after "okHi := hi.SetBytes(wideData[FpBytes:])": h0 = hi
+//@   assert after "p511 := ct.Choice(wideData[FpWideBytes-1] >> 7)": (p255 == 0 || p255 == 1) && (p511 == 0 || p511 == 1)
